@@ -240,6 +240,9 @@ def locate(src, kind, name, lo=0, hi=None):
 def locate_impl(src, type_name, trait=None):
     hits = []
     for si in src.find_seq(['impl']):
+        prev = src.tok(si - 1)[1] if si > 0 else '}'
+        if prev not in ('}', ';', ']', '{', 'unsafe'):
+            continue    # `impl Trait` in type position
         op = src.body_open(si)
         hdr = [src.tok(k)[1] for k in range(si, op)]
         # strip generics: find the self type = last identifier before `{` that is not in <>
@@ -383,6 +386,7 @@ def rule_R5(text, log):
     text = re.sub(r'#\[derive\([^\]]*\)\]([ \t]*\n?)', drop, text)
     text = re.sub(r'#\[allow\([^\]]*\)\]([ \t]*\n?)', drop, text)
     text = re.sub(r'#\[repr\(u8\)\]([ \t]*\n?)', drop, text)
+    text = re.sub(r'#\[cfg_attr\(feature = "unbounded", allow\(dead_code\)\)\]([ \t]*\n?)', drop, text)
     text = re.sub(r'#\[inline(?:\([^\]]*\))?\]([ \t]*\n?)', drop, text)
     n = len(re.findall(r'\bpub(?:\((?:crate|super)\))? ', text))
     if n:
@@ -708,6 +712,9 @@ def extract_unit(spec_path, repo, out_path, meta_path=None, canary=None):
             text = src.text
             scope_lo, scope_hi = 0, len(text)
             if 'within_fn' in item:
+                if 'within_impl' in item:
+                    _, _, iop, icl = locate_impl(src, item['within_impl'], item.get('within_trait'))
+                    lo, hi = iop, icl
                 fs, _, fo, fc = locate(src, 'fn', item['within_fn'], lo, hi)
                 scope_lo, scope_hi = src.tok(fo)[3], src.tok(fc)[2]
             m1 = re.compile(item['from']).search(text, scope_lo, scope_hi)
